@@ -8,6 +8,7 @@ import (
 	"os/exec"
 	"path/filepath"
 	"strings"
+	"sync/atomic"
 	"syscall"
 	"time"
 )
@@ -56,12 +57,12 @@ func Scratch() string {
 	return d
 }
 
-var childSeq int
+var childSeq int64
 
 // RunChild runs the child, replays its WAL into c and reports how it ended.
 func (c *Ctx) RunChild(spec ChildSpec) ChildOutcome {
-	childSeq++
-	wal := filepath.Join(Scratch(), fmt.Sprintf("wal-%s-%d-%d.jsonl", spec.Prop, os.Getpid(), childSeq))
+	seq := atomic.AddInt64(&childSeq, 1)
+	wal := filepath.Join(Scratch(), fmt.Sprintf("wal-%s-%d-%d.jsonl", spec.Prop, os.Getpid(), seq))
 	os.Remove(wal)
 	cfg, _ := json.Marshal(spec.Cfg)
 	bin := spec.Bin
